@@ -79,7 +79,13 @@ def monomial(
     start = numpy.array(start, dtype=int)
     stop = numpy.array(stop, dtype=int)
     if isinstance(dimensions, str):
-        names, dimensions = (dimensions,), 1
+        # one name for several dimensions is extended with an integer index.
+        name, dimensions = dimensions, max(start.size, stop.size, 1)
+        names = (
+            (name,)
+            if dimensions == 1
+            else tuple(f"{name}{idx}" for idx in range(dimensions))
+        )
     elif isinstance(dimensions, (int, numpy.integer)):
         dimensions = max(start.size, stop.size, dimensions)
         names = numpoly.variable(dimensions).names
@@ -97,6 +103,10 @@ def monomial(
         reverse=reverse,
         cross_truncation=cross_truncation,
     )
+    if len(indices) and indices.shape[-1] != len(names):
+        raise ValueError(
+            f"{len(names)} names for bounds over {indices.shape[-1]} dimensions"
+        )
     poly = numpoly.ndpoly(
         exponents=indices,
         shape=(len(indices),),
